@@ -40,6 +40,22 @@ Definition dst_close (tol : Z) (a b : pos * Z * bool) : bool :=
   let '((bx, by_, bz), bf, bs) := b in
   oz_close tol ax bx && oz_close tol ay by_ && oz_close tol az bz && Z.eqb af bf && Bool.eqb asx bs.
 
+(* moves as (source, destination, feed, shutter); a move is negligible when it is shorter than the tolerance *)
+Definition mv_close (tol : Z) (a b : pos * pos * Z * bool) : bool :=
+  let '(a1, a2, af, asx) := a in let '(b1, b2, bf, bs) := b in
+  oz_close tol (fst (fst a2)) (fst (fst b2)) && oz_close tol (snd (fst a2)) (snd (fst b2)) && oz_close tol (snd a2) (snd b2)
+  && Z.eqb af bf && Bool.eqb asx bs.
+Definition mv_tiny (tol : Z) (a : pos * pos * Z * bool) : bool :=
+  let '(a1, a2, _, _) := a in
+  oz_close tol (fst (fst a1)) (fst (fst a2)) && oz_close tol (snd (fst a1)) (snd (fst a2)) && oz_close tol (snd a1) (snd a2).
+
+(* the specified moves: from each point to the next *)
+Fixpoint spec_moves (cur : pos) (l : list (pos * Z * bool)) : list (pos * pos * Z * bool) :=
+  match l with
+  | [] => []
+  | (d, f, s) :: r => (cur, d, f, s) :: spec_moves d r
+  end.
+
 Definition g1_digits_ok (d : Z) (t : tok) : bool :=
   match t with TG1 _ nd _ _ _ _ _ => Z.eqb nd d | _ => true end.
 
@@ -51,7 +67,8 @@ Definition replay_ok (c : cfg) (pts : list pt) (toks : list tok) : bool :=
       let nowhere : pos := (None, None, None) in
       match errors ev with
       | [] =>
-          list_eqb (dst_close (tol_of c)) (collapse nowhere (dsts ev)) (collapse nowhere (spec_of c pts))
+          align (S (length (moves ev) + length pts)) (mv_close (tol_of c)) (mv_tiny (tol_of c))
+                (moves ev) (spec_moves nowhere (spec_of c pts))
           && Bool.eqb (msh m) (last (map (fun p => Z.eqb (ps p) 1) pts) false)
           && forallb (g1_digits_ok (digits c)) toks
       | _ => false
@@ -69,7 +86,9 @@ Definition check (k : case) : N :=
         match first_diff (tol_of (k_cfg k)) 0 file (k_toks k) with None => true | Some _ => false end;
         q_close dw (k_dwell k);
         (* monitor: only for bare writes that did not raise, with 0/1 shutter columns *)
-        if k_bare k && N.eqb (k_raised k) 0 && forallb (fun p => Z.eqb (ps p) 0 || Z.eqb (ps p) 1) (k_pts k)
+        (* (with fewer than 4 decimals distinct points may print alike: the replay alignment is then ambiguous
+           and only the token-level comparison above applies) *)
+        if k_bare k && N.eqb (k_raised k) 0 && (4 <=? digits (k_cfg k)) && forallb (fun p => Z.eqb (ps p) 0 || Z.eqb (ps p) 1) (k_pts k)
         then replay_ok (k_cfg k) (k_pts k) (k_toks k) else true
       ]
   end.
